@@ -382,8 +382,6 @@ theorem c07_sai_list_mutable_witness :
 
 /-! ### non-vacuity: the hypotheses are satisfiable, the statements are not empty -/
 
-deriving instance DecidableEq for Except
-
 /-- a submodel holding a list of lists of properties, an operation and an entity -/
 def exTree : Tree :=
   .node .submodel "urn:x".toList none [] [
